@@ -10,7 +10,7 @@ RULE = ("a batch of generated programs (plus a directed corpus that prints, allo
         "16 threads taking programs from a seeded random permutation (three seeds), (d) by harness binaries built in the "
         "release AND the debug profile (overflow checks, debug assertions): value graph, printed output, error kind and "
         "executed-instruction count must agree item by item across all four, and with Pipeline.v's single answer inside "
-        "Coq for a sample. non-trivial = distinct program that runs at least one instruction")
+        "Coq for a sample; (d') the stack-limit alignment family of C12 answered identically by the release and the debug build. non-trivial = distinct program that runs at least one instruction")
 ASSUMPTIONS = ["thread scheduling, the system allocator and stdout are shared in reality and are not modelled: contexts (b), (c) are exploration, not proof",
                "the hand-written `unsafe impl Send/Sync for Object` is a trusted item of the regenerated inventory"]
 NOTES = ["proved: eval_fresh_pipeline, no_global_state (regenerated inventory), interleaving_independent (any schedule)"]
